@@ -150,7 +150,8 @@ pub enum Op {
     Overwrite { ids: Vec<i64>, salt: u64 },
     /// restore the version the handle is checked out at (the runner opens the handle at `version`)
     Restore { version: u64 },
-    AddColumn { name: String },
+    /// nullable=false: `id * 2` (NOT NULL); nullable=true: `w * 2` (w is nullable)
+    AddColumn { name: String, nullable: bool },
     DropColumn { name: String },
 }
 
@@ -213,7 +214,7 @@ impl Op {
             Op::UpdateConfig { key, value } => json!({"op":"update_config","key":key,"value":value}),
             Op::Overwrite { ids, salt } => json!({"op":"overwrite","ids":ids,"salt":salt}),
             Op::Restore { version } => json!({"op":"restore","version":version}),
-            Op::AddColumn { name } => json!({"op":"add_column","name":name,"expr":"id * 2"}),
+            Op::AddColumn { name, nullable } => json!({"op":"add_column","name":name,"expr": if *nullable {"w * 2"} else {"id * 2"}}),
             Op::DropColumn { name } => json!({"op":"drop_column","name":name}),
         }
     }
@@ -326,11 +327,15 @@ impl Model {
                 }
             }
             Op::MergeCol { ids, col, salt, .. } => {
-                let k = self.col(col).ok_or("generator: merge_col on missing column")?;
+                // the column may have been dropped by an earlier transaction: the rewritten
+                // column data is then invisible
+                let k = self.col(col);
                 let b = BASE_COLS.iter().position(|b| b == col).unwrap();
                 for id in ids {
                     if let Some(r) = self.rows.get_mut(id) {
-                        r[k] = gen_row(*id, *salt)[b].clone();
+                        if let Some(k) = k {
+                            r[k] = gen_row(*id, *salt)[b].clone();
+                        }
                         eff.modified.insert(*id);
                     }
                 }
@@ -359,13 +364,22 @@ impl Model {
                 eff.modified = self.rows.keys().copied().collect();
                 *self = old.clone();
             }
-            Op::AddColumn { name } => {
+            Op::AddColumn { name, nullable } => {
                 if self.col(name).is_some() {
                     return Err(format!("generator: column {name} exists"));
                 }
+                let kw = self.col("w");
                 self.cols.push(name.clone());
                 for (id, r) in self.rows.iter_mut() {
-                    r.push(Cell::Int(*id as i128 * 2));
+                    let c = if *nullable {
+                        match kw.map(|k| r[k].clone()) {
+                            Some(Cell::Int(w)) => Cell::Int(w * 2),
+                            _ => Cell::Null,
+                        }
+                    } else {
+                        Cell::Int(*id as i128 * 2)
+                    };
+                    r.push(c);
                 }
             }
             Op::DropColumn { name } => {
@@ -409,6 +423,9 @@ pub fn err_class(e: &lance::Error) -> &'static str {
         _ => "Other",
     }
 }
+
+/// bound on Lance's own retry loop (keeps the tail of a run short; expiry is a conflict-class error)
+pub const RETRY_TIMEOUT: Duration = Duration::from_secs(12);
 
 pub fn is_conflict_class(c: &str) -> bool {
     matches!(
@@ -459,6 +476,7 @@ pub async fn exec_op(ds: Dataset, actor: &Actor, op: &Op) -> lance::Result<Optio
             if let Some(r) = retries {
                 b = b.conflict_retries(*r);
             }
+            b = b.retry_timeout(RETRY_TIMEOUT);
             let out = b.execute().await?;
             Ok(Some(out.manifest().version))
         }
@@ -472,6 +490,7 @@ pub async fn exec_op(ds: Dataset, actor: &Actor, op: &Op) -> lance::Result<Optio
             if let Some(r) = retries {
                 b = b.conflict_retries(*r);
             }
+            b = b.retry_timeout(RETRY_TIMEOUT);
             let out = b.build()?.execute().await?;
             Ok(Some(out.new_dataset.manifest().version))
         }
@@ -487,6 +506,7 @@ pub async fn exec_op(ds: Dataset, actor: &Actor, op: &Op) -> lance::Result<Optio
             if let Some(r) = retries {
                 b.conflict_retries(*r);
             }
+            b.retry_timeout(RETRY_TIMEOUT);
             let (out, _stats) = b.try_build()?.execute_reader(reader(batch)).await?;
             Ok(Some(out.manifest().version))
         }
@@ -499,6 +519,7 @@ pub async fn exec_op(ds: Dataset, actor: &Actor, op: &Op) -> lance::Result<Optio
             if let Some(r) = retries {
                 b.conflict_retries(*r);
             }
+            b.retry_timeout(RETRY_TIMEOUT);
             let (out, _stats) = b.try_build()?.execute_reader(reader(batch)).await?;
             Ok(Some(out.manifest().version))
         }
@@ -543,10 +564,11 @@ pub async fn exec_op(ds: Dataset, actor: &Actor, op: &Op) -> lance::Result<Optio
             ds.restore().await?;
             Ok(Some(ds.manifest().version))
         }
-        Op::AddColumn { name } => {
+        Op::AddColumn { name, nullable } => {
             let mut ds = ds;
+            let expr = if *nullable { "w * 2" } else { "id * 2" };
             ds.add_columns(
-                NewColumnTransform::SqlExpressions(vec![(name.clone(), "id * 2".to_string())]),
+                NewColumnTransform::SqlExpressions(vec![(name.clone(), expr.to_string())]),
                 None,
                 None,
             )
@@ -881,6 +903,27 @@ pub struct Observed {
 }
 
 pub async fn observe_version(actor: &Actor, uri: &str, v: u64) -> Result<Observed, String> {
+    use futures::FutureExt;
+    match std::panic::AssertUnwindSafe(observe_version_inner(actor, uri, v))
+        .catch_unwind()
+        .await
+    {
+        Ok(r) => r,
+        Err(p) => Err(format!("PANIC while reading v{v}: {}", panic_msg(&p))),
+    }
+}
+
+pub fn panic_msg(p: &Box<dyn std::any::Any + Send>) -> String {
+    if let Some(s) = p.downcast_ref::<&str>() {
+        s.to_string()
+    } else if let Some(s) = p.downcast_ref::<String>() {
+        s.clone()
+    } else {
+        "non-string panic payload".into()
+    }
+}
+
+async fn observe_version_inner(actor: &Actor, uri: &str, v: u64) -> Result<Observed, String> {
     let ds = actor
         .open_version(uri, v)
         .await
@@ -1024,8 +1067,8 @@ pub fn diff_state(model: &Model, obs: &Observed, ops: &[&Op], at: &str) -> Vec<F
 
 pub struct SerialCheck {
     pub findings: Vec<Finding>,
-    /// (version, actor index into results) in commit order
-    pub commit_order: Vec<(u64, usize)>,
+    /// (version, index into results, carries the op's effect) in commit order
+    pub commit_order: Vec<(u64, usize, bool)>,
     /// model after each version (setup + concurrent phase)
     pub states: BTreeMap<u64, Model>,
     /// effect of each committed op evaluated immediately before its version (by results index)
@@ -1079,15 +1122,35 @@ pub async fn check_serial(out: &HistoryOutcome, corrupt: Corrupt<'_>) -> SerialC
             detail: json!({"version": v}),
         });
     }
+    // operation name of every version created in the concurrent phase (from its transaction)
+    let mut txn_name: BTreeMap<u64, String> = BTreeMap::new();
+    for v in facts.creator.keys() {
+        use futures::FutureExt;
+        let name = std::panic::AssertUnwindSafe(async {
+            let ds = reader.open_version(&out.uri, *v).await.ok()?;
+            ds.read_transaction().await.ok()?.map(|t| t.operation.name().to_string())
+        })
+        .catch_unwind()
+        .await
+        .ok()
+        .flatten()
+        .unwrap_or_else(|| "?".to_string());
+        txn_name.insert(*v, name);
+    }
     for (i, r) in out.results.iter().enumerate() {
         let vs = by_actor.get(&r.actor).cloned().unwrap_or_default();
+        // compaction reserves fragment ids in a transaction of its own before the rewrite: such
+        // versions have no row-level effect (the per-version comparison below still checks that)
+        let maintenance = matches!(r.op, Op::Compact { .. });
+        let reserve_only = |vs: &[u64]| vs.iter().all(|v| txn_name.get(v).map(|n| n == "ReserveFragments").unwrap_or(false));
         match &r.result {
             Ok(rep) => {
-                if vs.len() > 1 {
+                let extra_ok = maintenance && vs.len() > 1 && reserve_only(&vs[..vs.len() - 1]);
+                if vs.len() > 1 && !extra_ok {
                     sc.findings.push(Finding {
                         signature: format!("one-op-many-versions:{}", r.op.kind()),
                         what: format!("actor {} {} created versions {vs:?}", r.actor, r.op.kind()),
-                        detail: json!({"versions": vs, "op": r.op.describe()}),
+                        detail: json!({"versions": vs, "op": r.op.describe(), "txn": txn_name}),
                     });
                 }
                 if vs.is_empty() && r.op.always_commits() {
@@ -1106,24 +1169,30 @@ pub async fn check_serial(out: &HistoryOutcome, corrupt: Corrupt<'_>) -> SerialC
                         });
                     }
                 }
+                let last = vs.last().copied();
                 for v in vs {
-                    sc.commit_order.push((v, i));
+                    // the op's effect belongs to its last version
+                    sc.commit_order.push((v, i, Some(v) == last));
                 }
             }
             Err((class, msg)) => {
                 if !vs.is_empty() {
-                    sc.findings.push(Finding {
-                        signature: format!("failed-op-has-committed-version:{}:{}", r.op.kind(), class),
-                        what: format!(
-                            "actor {} {} returned Err({class}) but its manifest for version {vs:?} was created",
-                            r.actor,
-                            r.op.kind()
-                        ),
-                        detail: json!({"versions": vs, "error": msg, "op": r.op.describe()}),
-                    });
-                    // its effect is visible; replay it so that later diffs stay meaningful
+                    let harmless = maintenance && reserve_only(&vs);
+                    if !harmless {
+                        sc.findings.push(Finding {
+                            signature: format!("failed-op-has-committed-version:{}:{}", r.op.kind(), class),
+                            what: format!(
+                                "actor {} {} returned Err({class}) but its manifest for version {vs:?} was created",
+                                r.actor,
+                                r.op.kind()
+                            ),
+                            detail: json!({"versions": vs, "error": msg, "op": r.op.describe(), "txn": txn_name}),
+                        });
+                    }
+                    // replay so that later diffs stay meaningful (reserve-only versions: no effect)
+                    let last = vs.last().copied();
                     for v in vs {
-                        sc.commit_order.push((v, i));
+                        sc.commit_order.push((v, i, !harmless && Some(v) == last));
                     }
                 }
             }
@@ -1132,6 +1201,7 @@ pub async fn check_serial(out: &HistoryOutcome, corrupt: Corrupt<'_>) -> SerialC
     sc.commit_order.sort();
     // density
     let expect: Vec<u64> = (out.base_version + 1..=latest).collect();
+    sc.commit_order.sort();
     let got: Vec<u64> = sc.commit_order.iter().map(|x| x.0).collect();
     if expect != got {
         sc.harness_error = Some(format!(
@@ -1142,27 +1212,39 @@ pub async fn check_serial(out: &HistoryOutcome, corrupt: Corrupt<'_>) -> SerialC
     // replay + compare every version
     let mut model = out.setup_states[&out.base_version].clone();
     let n_commits = sc.commit_order.len();
-    for (k, (v, i)) in sc.commit_order.clone().into_iter().enumerate() {
+    for (k, (v, i, effective)) in sc.commit_order.clone().into_iter().enumerate() {
         let op = &out.results[i].op;
-        match model.apply(op, &sc.states) {
-            Ok(eff) => {
-                sc.effects.entry(i).or_insert(eff);
-            }
-            Err(e) => {
-                sc.harness_error = Some(e);
-                return sc;
+        if effective {
+            match model.apply(op, &sc.states) {
+                Ok(eff) => {
+                    sc.effects.entry(i).or_insert(eff);
+                }
+                Err(e) => {
+                    sc.harness_error = Some(e);
+                    return sc;
+                }
             }
         }
         sc.states.insert(v, model.clone());
         let mut obs = match observe_version(&reader, &out.uri, v).await {
             Ok(o) => o,
             Err(e) => {
+                let reason = if e.contains("non-nullable but contains null") {
+                    "non-nullable-column-missing-in-fragment"
+                } else if e.contains("split of indexed and non-indexed data") {
+                    "frag-reuse-index-group-split"
+                } else if e.contains("PANIC") {
+                    "other-panic"
+                } else {
+                    "other-error"
+                };
                 sc.findings.push(Finding {
-                    signature: format!("committed-version-unreadable:{}", op.kind()),
+                    signature: format!("committed-version-unreadable:{}:{reason}", op.kind()),
                     what: format!("version {v} (committed by {}) cannot be read: {e}", op.kind()),
-                    detail: json!({"version": v}),
+                    detail: json!({"version": v, "txn": txn_name.get(&v)}),
                 });
-                continue;
+                // later versions inherit the damage
+                break;
             }
         };
         if k + 1 == n_commits {
@@ -1289,7 +1371,11 @@ where
                     if i >= max_cases {
                         break;
                     }
-                    rt.block_on(case(i));
+                    use futures::FutureExt;
+                    let r = rt.block_on(std::panic::AssertUnwindSafe(case(i)).catch_unwind());
+                    if let Err(p) = r {
+                        report.harness_error(&format!("case {i} panicked in the harness thread: {}", panic_msg(&p)));
+                    }
                 }
             });
         }
@@ -1341,4 +1427,214 @@ pub fn publish_interleavings(report: &Report) {
         report.set("distinct_interleavings", json!(e.0.len()));
         report.set("distinct_interleavings_with_contested_manifest_slot", json!(e.1.len()));
     }
+}
+
+// -------------------------------------------------------------------------------------------
+// index coverage oracle (C24; also run on the final version of C03 histories)
+// -------------------------------------------------------------------------------------------
+
+#[derive(Default, Debug, Clone)]
+pub struct IndexCheckStats {
+    pub indices: u64,
+    pub covered_fragments: u64,
+    pub queries: u64,
+    pub queries_using_index: u64,
+    pub rows_compared: u64,
+}
+
+async fn ids_with_frag(ds: &Dataset, filter: &str, use_index: bool) -> Result<BTreeMap<i64, Vec<u32>>, String> {
+    let mut sc = ds.scan();
+    sc.use_scalar_index(use_index);
+    sc.with_row_address();
+    sc.project(&["id"]).map_err(|e| e.to_string())?;
+    sc.filter(filter).map_err(|e| e.to_string())?;
+    let bs: Vec<RecordBatch> = sc
+        .try_into_stream()
+        .await
+        .map_err(|e| format!("scan({filter}, index={use_index}): {e}"))?
+        .try_collect()
+        .await
+        .map_err(|e| format!("scan({filter}, index={use_index}): {e}"))?;
+    let mut out: BTreeMap<i64, Vec<u32>> = BTreeMap::new();
+    for b in &bs {
+        let ids = b
+            .column_by_name("id")
+            .ok_or("no id column")?
+            .as_any()
+            .downcast_ref::<Int64Array>()
+            .ok_or("id type")?
+            .clone();
+        let addr = b
+            .column_by_name("_rowaddr")
+            .ok_or("no _rowaddr column")?
+            .as_any()
+            .downcast_ref::<arrow_array::UInt64Array>()
+            .ok_or("_rowaddr type")?
+            .clone();
+        for i in 0..b.num_rows() {
+            out.entry(ids.value(i)).or_default().push((addr.value(i) >> 32) as u32);
+        }
+    }
+    Ok(out)
+}
+
+/// For every user index and a battery of equality / range predicates on its column: the answer
+/// with the index must equal the answer without it; a difference is attributed to the fragment
+/// (from `_rowaddr`) and classified by whether the index claims that fragment.
+/// `corrupt`: selftest hook, damages the indexed answer.
+pub async fn check_index_coverage(
+    ds: &Dataset,
+    ctx: &str,
+    corrupt: bool,
+) -> Result<(Vec<Finding>, IndexCheckStats), String> {
+    use futures::FutureExt;
+    match std::panic::AssertUnwindSafe(check_index_coverage_inner(ds, ctx, corrupt))
+        .catch_unwind()
+        .await
+    {
+        Ok(r) => r,
+        Err(p) => {
+            let msg = panic_msg(&p);
+            // the panic hook recorded where it happened
+            let loc = THREAD_PANIC_LOCATION
+                .with(|l| l.borrow_mut().take())
+                .or_else(|| LAST_PANIC_LOCATION.lock().unwrap().clone())
+                .unwrap_or_default();
+            let reason = if loc.contains("lance-table/src/rowids.rs") {
+                "rowid-sequence-mask-to-offsets"
+            } else if msg.contains("non-nullable but contains null") {
+                "non-nullable-column-missing-in-fragment"
+            } else if msg.contains("split of indexed and non-indexed data") {
+                "frag-reuse-index-group-split"
+            } else {
+                "other"
+            };
+            Ok((
+                vec![Finding {
+                    signature: format!("query-panics-after-race:{reason}"),
+                    what: format!("a filtered scan of the final version panicked at {loc}: {msg}"),
+                    detail: json!({"panic": msg, "location": loc, "ops": ctx}),
+                }],
+                IndexCheckStats::default(),
+            ))
+        }
+    }
+}
+
+pub static LAST_PANIC_LOCATION: std::sync::Mutex<Option<String>> = std::sync::Mutex::new(None);
+
+thread_local! {
+    pub static THREAD_PANIC_LOCATION: std::cell::RefCell<Option<String>> = const { std::cell::RefCell::new(None) };
+}
+
+async fn check_index_coverage_inner(
+    ds: &Dataset,
+    ctx: &str,
+    corrupt: bool,
+) -> Result<(Vec<Finding>, IndexCheckStats), String> {
+    let mut st = IndexCheckStats::default();
+    let mut findings = vec![];
+    let indices = ds.load_indices().await.map_err(|e| format!("load_indices: {e}"))?;
+    let live_frags: BTreeSet<u32> = ds.get_fragments().iter().map(|f| f.id() as u32).collect();
+    // group index segments by name (optimize may produce several deltas)
+    let mut by_name: BTreeMap<String, (String, BTreeSet<u32>, bool)> = BTreeMap::new();
+    for idx in indices.iter() {
+        if idx.name.starts_with("__") || idx.fields.len() != 1 {
+            continue;
+        }
+        let Some(field) = ds.schema().field_by_id(idx.fields[0]) else { continue };
+        let e = by_name
+            .entry(idx.name.clone())
+            .or_insert_with(|| (field.name.clone(), BTreeSet::new(), false));
+        match &idx.fragment_bitmap {
+            Some(bm) => e.1.extend(bm.iter()),
+            None => e.2 = true,
+        }
+    }
+    for (name, (col, bitmap, unknown_bitmap)) in &by_name {
+        st.indices += 1;
+        st.covered_fragments += bitmap.intersection(&live_frags).count() as u64;
+        let mut preds: Vec<String> = vec![];
+        let dom: Vec<i64> = match col.as_str() {
+            "v" => vec![0, 1, 2, 3, 5, 7, 11, 17, 23, 31, 42, 49, 55, 100],
+            "w" => vec![0, 1, 2, 3, 4, 5, 6, 10, 12, 15, 18, 20],
+            "id" => vec![0, 1, 3, 5, 9, 10, 11, 19, 20, 39],
+            _ => continue,
+        };
+        for k in &dom {
+            preds.push(format!("{col} = {k}"));
+        }
+        for k in dom.iter().step_by(3) {
+            preds.push(format!("{col} < {k}"));
+            preds.push(format!("{col} >= {k}"));
+        }
+        preds.push(format!("{col} >= {} AND {col} <= {}", dom[1], dom[dom.len() / 2]));
+        preds.push(format!("{col} > {} AND {col} < {}", dom[2], dom[dom.len() - 2]));
+        preds.push(format!("{col} IN ({}, {}, {})", dom[0], dom[3], dom[5]));
+        let mut used_index = false;
+        if let Ok(plan) = {
+            let mut sc = ds.scan();
+            sc.filter(&preds[0]).map_err(|e| e.to_string())?;
+            sc.explain_plan(false).await
+        } {
+            used_index = plan.contains("ScalarIndexQuery");
+        }
+        for p in &preds {
+            let mut with = ids_with_frag(ds, p, true).await?;
+            let without = ids_with_frag(ds, p, false).await?;
+            if corrupt {
+                if let Some(k) = with.keys().next().copied() {
+                    with.remove(&k);
+                } else {
+                    with.insert(-7, vec![*live_frags.iter().next().unwrap_or(&0)]);
+                }
+            }
+            st.queries += 1;
+            if used_index {
+                st.queries_using_index += 1;
+            }
+            st.rows_compared += without.len() as u64;
+            if with == without {
+                continue;
+            }
+            let mut extra = vec![]; // (id, frag) only with index
+            let mut missing = vec![];
+            for (id, fr) in &with {
+                if without.get(id) != Some(fr) {
+                    extra.push((*id, fr.clone()));
+                }
+            }
+            for (id, fr) in &without {
+                if with.get(id) != Some(fr) {
+                    missing.push((*id, fr.clone()));
+                }
+            }
+            let frags: BTreeSet<u32> = extra
+                .iter()
+                .chain(missing.iter())
+                .flat_map(|x| x.1.iter().copied())
+                .collect();
+            let covered = frags.iter().any(|f| bitmap.contains(f)) || *unknown_bitmap;
+            let kind = match (extra.is_empty(), missing.is_empty()) {
+                (false, true) => "stale-extra-rows",
+                (true, false) => "missing-rows",
+                _ => "extra-and-missing-rows",
+            };
+            findings.push(Finding {
+                signature: format!(
+                    "indexed-answer-differs-on-{}-fragment:{kind}:{ctx}",
+                    if covered { "covered" } else { "uncovered" }
+                ),
+                what: format!(
+                    "index {name} on {col} (bitmap {bitmap:?}): `{p}` returns {:?} with the index and {:?} without (fragments {frags:?})",
+                    with.keys().collect::<Vec<_>>(),
+                    without.keys().collect::<Vec<_>>()
+                ),
+                detail: json!({"index": name, "column": col, "bitmap": bitmap, "predicate": p,
+                    "only_with_index": extra, "only_without_index": missing}),
+            });
+            break; // one witness per index is enough
+        }
+    }
+    Ok((findings, st))
 }
